@@ -54,7 +54,7 @@ def programs():
 
 
 FAULT_PROGRAMS = ["S+S", "W+S", "H", "P", "Sm", "Mw"]
-FAULTS = ["5xx", "429", "4xx", "token"]
+FAULTS = ["5xx", "429", "4xx", "token", "badresp-status", "badresp-noid", "badresp-type", "badresp-none"]
 
 
 def wellformed(out_v, o, inv, be_has_exec):
@@ -121,6 +121,8 @@ def judge(d, _=None):
             allowed = bool(set(mro) & INVOCATION_FAMILY)
             if cls == "CheckpointError" and faults:
                 allowed = faults[0]["name"] == "4xx"   # only retriable checkpoint errors trigger a retry
+                if faults[0]["name"].startswith("badresp"):
+                    allowed = True   # an unparseable response: retry or FAILED are both defensible
                 if not allowed:
                     V(out, "C18", "non-retriable-checkpoint-error-raised", f"{tag}: {faults[0]['name']} raised {cls}")
                     continue
@@ -274,7 +276,7 @@ def run(ctx):
     cov["bounds"] = ("handlers returning {None, dict, str, list, 0, NaN, tuple, object(), bytes}; raising 13 exception classes "
                      "(user and SDK) from top level, from a child context, from a parallel branch and from inside a step; "
                      "serialization failure; validation failure; uncaught failed step; suspension from 8 parking shapes; "
-                     "checkpoint faults {5xx, 429, 4xx, invalid token} and get-state faults at every call position of 6 "
+                     "checkpoint faults {5xx, 429, 4xx, invalid token, four kinds of unparseable 200 responses} and get-state faults at every call position of 6 "
                      "(quick) / 12 (thorough) programs combined with pagination modes, three policies; 16 malformed payloads")
     cov["explanation"] = "each trace is an invocation (or execution) through the production wrapper returned by durable_execution"
     return {"coverage": cov, "violations": viols, "internal": internal,
